@@ -58,6 +58,11 @@ def run_history(tid, actions):
                 c04_mod.K.Inner.D = x
             elif slot == "M":
                 c04_aux.M = x
+        elif a["act"] == "DelClosure":
+            try:
+                f["del_v"]()
+            except NameError:
+                pass
         elif a["act"] == "DelGlobal":
             if hasattr(c04_mod, "G"):
                 del c04_mod.G
